@@ -32,11 +32,11 @@ func main() {
 			op, ps = s.FailConfirm(rng)
 		case x < 16:
 			op, ps = s.FailPlay(rng)
-		case x < 19:
+		case x < 23:
 			op, ps = s.FailWalk(rng)
-		case x < 26:
+		case x < 30:
 			op, ps = s.FailDoTx(rng)
-		case x < 36:
+		case x < 40:
 			op, ps = s.FaultOp(rng)
 		default:
 			return nil
@@ -56,7 +56,7 @@ func main() {
 	r.Floor("twin.compared", 1500)
 	r.Floor("canon.compared", 1500)
 	for _, f := range []string{"failed.play:bad-first", "failed.play:award+bad", "failed.play:good+bad", "failed.confirm:unknown-parent", "failed.confirm:second-genesis",
-		"failed.confirm:two-coinbase", "failed.confirm:dup-tx", "failed.dotx", "failed.walk", "fault.confirm", "fault.play", "fault.walk", "fault.dotx", "fault.mine"} {
+		"failed.confirm:two-coinbase", "failed.confirm:dup-tx", "failed.dotx", "failed.walk", "fault.confirm", "fault.play", "fault.walk", "fault.dotx", "fault.mine", "failed.walk.unknown-target", "walk.noop"} {
 		r.Floor(f, 5)
 	}
 	r.Floor("walk.undo", 20)
